@@ -1,11 +1,30 @@
 import TabulaModel.Util
 import TabulaModel.Model.Chunk
 import TabulaModel.Model.ChunkLayout
+import TabulaModel.Model.ChunkSent
+import TabulaModel.Model.ChunkSplit
+import TabulaModel.Model.ChunkApi
+import TabulaModel.Model.ChunkAtomic
 /-!
 Line protocol of C12 (see `harness/c12/gen.go: docWire`, `layout.go: layoutWire`).
 
 * `c12.chunk s=<split table> d=<doc>` — element-based chunker
 * `c12.lchunk <max> <min> <minHeadingLevel> <keepLists> <hex idPrefix> <hex title> d=<layout doc>`
+* `c12.lchunks <max> <min> <minHeadingLevel> <keepLists> <hex idPrefix> <hex title> low=<hex,…> d=<layout doc without sentence pieces>`
+  — the same with `splitIntoSentences` computed by the model (`sent.go: layoutWireS`)
+* `c12.chunkc <unit>:<max>:<tpcNum>/<tpcDen>:<sem> d=<doc>` or `c12.chunkc preset=<name> d=<doc>` — element-based
+  chunker with the splitter computed by the model of C13 (`Model/ChunkSplit.lean`); `<doc>` as for `c12.chunk`
+* `c12.preset <name>` — the size preset as the model has it; reply `<unit>:<max>:<tpcNum>/<tpcDen>:<sem>`
+* `c12.usp <currentLevel> <level>=<hex>,…` — a sequence of `updateSectionPath` calls starting from the empty path;
+  reply: after every call `<path: hex+hex… or ~>@<currentLevel>`, joined by `;` (`none` for no call)
+* `c12.addpage <n>,<n>,…` — `Document.AddPage` on pages with these `Number` fields; reply: the numbers assigned
+* `c12.lcfg <name>` — the configuration a named constructor hands to `Chunk`; reply `<max> <min> <minHeadingLevel> <keepLists> <hex idPrefix>`
+* `c12.lchunka …` — arguments of `c12.lchunks`; `Chunker.Chunk` with `FindAtomicBlocks` / `GetAtomicBlockAt` and the
+  index-driven loop (`Model/ChunkAtomic.lean: chunkAt`)
+* `c12.atomic <keepLists> <elems>` — elems = `h`, `p`, `p!` (paragraph accepted by `isListIntro`), `l` joined by `,`;
+  reply `<start>-<end>,…|<block at 0>,<block at 1>,…` (`~` = no block), the result of `FindAtomicBlocks` and of
+  `GetAtomicBlockAt` for every index
+* `c12.sents low=<hex,…> <hex text>` — `splitIntoSentences`; reply `<hex>+<hex>…` or `none`
 
 Reply: `<idx>,<hex id>,<total>,<pageStart>,<pageEnd>,<hex+hex…|~>,<hex text>` joined by `;`, or `none`.
 -/
@@ -136,8 +155,62 @@ def parseLPage (numbered : String) : Option LPage :=
     | _ => none
   | _ => none
 
+def unitOf : Nat → Option Tabula.Split.SizeUnit
+  | 0 => some .characters | 1 => some .tokens | 2 => some .words
+  | 3 => some .sentences | 4 => some .paragraphs | _ => none
+
+def unitNo : Tabula.Split.SizeUnit → Nat
+  | .characters => 0 | .tokens => 1 | .words => 2 | .sentences => 3 | .paragraphs => 4
+
+def parseSizeCfg (s : String) : Option Tabula.Split.SizeConfig :=
+  if s.startsWith "preset=" then ChunkSplit.preset (s.drop 7).toString else
+  match s.splitOn ":" with
+  | [u, m, tpc, sem] =>
+    match tpc.splitOn "/" with
+    | [n, d] => do
+      let u ← u.toNat? >>= unitOf
+      let m ← m.toNat?
+      let n ← n.toInt?
+      let d ← d.toNat?
+      pure { maxValue := m, maxUnit := u, tpcNum := n, tpcDen := d, sem := sem == "1" }
+    | _ => none
+  | _ => none
+
+def dumpSizeCfg (c : Tabula.Split.SizeConfig) : String :=
+  s!"{unitNo c.maxUnit}:{c.maxValue}:{c.tpcNum}/{c.tpcDen}:{if c.sem then 1 else 0}"
+
+def dumpPath (p : List Str) : String := if p.isEmpty then "~" else "+".intercalate (p.map hexS)
+
+/-- the states after every call of a sequence of `updateSectionPath` calls -/
+def uspTrace : List Str → Int → List (Int × Str) → List String
+  | _, _, [] => []
+  | path, cur, (l, t) :: hs =>
+    let r := ChunkApi.updateSectionPath path cur l t
+    s!"{dumpPath r.1}@{r.2}" :: uspTrace r.1 r.2 hs
+
 def handle (op : String) (args : List String) : String :=
   match op, args with
+  | "c12.usp", [c0, hs] =>
+    match c0.toInt?, (splitNE (if hs == "-" then "" else hs) ",").mapM parseLevelHex with
+    | some c0, some hs => if hs.isEmpty then "none" else ";".intercalate (uspTrace [] c0 hs)
+    | _, _ => "bad-op"
+  | "c12.addpage", [ns] =>
+    match (splitNE (if ns == "-" then "" else ns) ",").mapM String.toInt? with
+    | some ns => ",".intercalate ((ChunkApi.addPages [] ns).map toString)
+    | none => "bad-op"
+  | "c12.lcfg", [name] =>
+    match ChunkApi.namedCfg name with
+    | some c => s!"{c.maxSize} {c.minSize} {c.minHeadingLevel} {if c.keepLists then 1 else 0} {hexS c.idPrefix}"
+    | none => "bad-op"
+  | "c12.chunkc", [cfg, d] =>
+    if !(d.startsWith "d=") then "bad-op" else
+    match parseSizeCfg cfg, (splitNE (d.drop 2).toString "/").mapM parsePage with
+    | some c, some doc => dumpChunks (ChunkSplit.chunkDocumentC c doc)
+    | _, _ => "bad-op"
+  | "c12.preset", [name] =>
+    match ChunkSplit.preset name with
+    | some c => dumpSizeCfg c
+    | none => "bad-op"
   | "c12.chunk", [s, d] =>
     if !(s.startsWith "s=" && d.startsWith "d=") then "bad-op" else
     match (splitNE (s.drop 2).toString ",").mapM parseSplitEntry,
@@ -151,6 +224,48 @@ def handle (op : String) (args : List String) : String :=
     | some mx, some mn, some mhl, some pfx, some title, some doc =>
       dumpChunks (ChunkLayout.chunk ⟨mx, mn, mhl, keep == "1", pfx⟩ title doc)
     | _, _, _, _, _, _ => "bad-op"
+  | "c12.lchunks", [mx, mn, mhl, keep, pfx, title, low, d] =>
+    if !(d.startsWith "d=" && low.startsWith "low=") then "bad-op" else
+    match mx.toInt?, mn.toInt?, mhl.toInt?, unhexS pfx, unhexS title,
+          (splitNE (low.drop 4).toString ",").mapM unhexS,
+          (splitNE (d.drop 2).toString "/").mapM parseLPage with
+    | some mx, some mn, some mhl, some pfx, some title, some tbl, some doc =>
+      dumpChunks (ChunkSent.chunkS (ChunkSent.lowOfTable tbl) ⟨mx, mn, mhl, keep == "1", pfx⟩ title doc)
+    | _, _, _, _, _, _, _ => "bad-op"
+  | "c12.lchunka", [mx, mn, mhl, keep, pfx, title, low, d] =>
+    if !(d.startsWith "d=" && low.startsWith "low=") then "bad-op" else
+    match mx.toInt?, mn.toInt?, mhl.toInt?, unhexS pfx, unhexS title,
+          (splitNE (low.drop 4).toString ",").mapM unhexS,
+          (splitNE (d.drop 2).toString "/").mapM parseLPage with
+    | some mx, some mn, some mhl, some pfx, some title, some tbl, some doc =>
+      dumpChunks (ChunkAtomic.chunkAt ⟨mx, mn, mhl, keep == "1", pfx⟩ title
+        (ChunkSent.withSents (ChunkSent.lowOfTable tbl) doc))
+    | _, _, _, _, _, _, _ => "bad-op"
+  | "c12.atomic", [keep, es] =>
+    let parseE (s : String) : Option ChunkLayout.CE :=
+      match s with
+      | "h" => some ⟨.heading, [], 0, false, []⟩
+      | "p" => some ⟨.para, [], 0, false, []⟩
+      | "p!" => some ⟨.para, [], 0, true, []⟩
+      | "l" => some ⟨.list, [], 0, false, []⟩
+      | _ => none
+    match (splitNE (if es == "-" then "" else es) ",").mapM parseE with
+    | some content =>
+      let blocks := ChunkAtomic.findAtomicBlocks (keep == "1") content
+      let showB (b : ChunkAtomic.Block) : String := s!"{b.1}-{b.2}"
+      let at_ := (List.range content.length).map fun i =>
+        match ChunkAtomic.getAtomicBlockAt i blocks with
+        | some b => showB b
+        | none => "~"
+      ",".intercalate (blocks.map showB) ++ "|" ++ ",".intercalate at_
+    | none => "bad-op"
+  | "c12.sents", [low, t] =>
+    if !(low.startsWith "low=") then "bad-op" else
+    match (splitNE (low.drop 4).toString ",").mapM unhexS, unhexS t with
+    | some tbl, some t =>
+      let ss := ChunkSent.splitIntoSentences (ChunkSent.lowOfTable tbl) t
+      if ss.isEmpty then "none" else "+".intercalate (ss.map hexS)
+    | _, _ => "bad-op"
   | _, _ => "bad-op"
 
 end Tabula.C12H
